@@ -25,6 +25,7 @@ Theorem C13_tangent_iff_linear :
   forall (n v C : vec3 R) (r : R),
     vdot Rops n (vsub Rops C v) = - r <-> vdot Rops n C + r = vdot Rops n v.
 Proof. exact tangent_iff_linear. Qed.
+Print Assumptions C13_tangent_iff_linear.
 
 (* maximal centred bounded ball: B(C, r) lies in a half-space n.x + d <= 0 (n unit) iff
    n.C + d + r <= 0, and touches the plane when equality holds; so the largest admissible radius
@@ -40,6 +41,7 @@ Theorem C13_ball_touches :
   forall (n C : vec3 R) (d r : R), vnorm2 Rops n = 1 -> vdot Rops n C + d + r = 0 ->
     vdot Rops n (vadd Rops C (vscale Rops r n)) + d = 0.
 Proof. exact ball_touches_plane. Qed.
+Print Assumptions C13_ball_touches.
 
 (* minimal centred bounding ball *)
 Theorem C13_centered_bounding_minimal :
@@ -47,6 +49,7 @@ Theorem C13_centered_bounding_minimal :
     (forall v, In v V -> d2 v c <= R2) -> (exists v, In v V /\ d2 v c = R2) ->
     forall R2', (forall v, In v V -> d2 v c <= R2') -> R2 <= R2'.
 Proof. exact centered_bounding_minimal. Qed.
+Print Assumptions C13_centered_bounding_minimal.
 
 (* minimal bounding ball: the certificate the harness checks on miniball's output is sufficient:
    an enclosing ball whose centre is a convex combination of points ON its boundary is no larger
